@@ -127,7 +127,7 @@ def floors(tier):
         "strata": ["bare|%s|%s" % (fam, m) for fam in FAMILIES for m in METHODS]
         + ["fit|%s|%s|%s" % (fam, m, d) for fam in FAMILIES for m in METHODS for d in ("density", "counts")]
         + ["order|%s|%s" % (fam, r) for fam in SMOOTH for r in RULES]
-        + ["edges|full", "edges|inner", "edges|uniform", "edges|single-bin", "edges|zero-width-bin", "name|uppercase", "poly0|scalar-return", "fill|fill", "fill|set_bins", "fill|numpy", "set_data|same-frame-other-inner-edges"],
+        + ["edges|full", "edges|inner", "edges|uniform", "edges|single-bin", "edges|zero-width-bin", "name|uppercase", "poly0|scalar-return", "fill|fill", "fill|set_bins", "fill|numpy", "set_data|same-frame-other-inner-edges", "parameters|same-array-reused"],
         "sets": {"n_bins": 12, "family-x-method-x-kind": 200},
         "distinct_nontrivial": 400 * f,
     }
@@ -660,7 +660,8 @@ def gen_case(rng, tier, idx, kind=None, fam=None, method=None, dens=None):
         for _ in range(nops):
             o = str(rng.choice(["parameters", "new_edges", "rebin", "reread", "eval_other_parameters"], p=[0.4, 0.2, 0.15, 0.1, 0.15]))
             if o == "parameters":
-                ops.append(["parameters", gen_params(rng, fam, cur), str(rng.choice(["list", "tuple", "array"]))])
+                # 'same-array': one numpy array re-used for every assignment and changed in place in between (a scan loop)
+                ops.append(["parameters", gen_params(rng, fam, cur), str(rng.choice(["list", "tuple", "array", "same-array", "same-array"]))])
             elif o in ("new_edges", "rebin"):
                 cur = gen_edges(rng)
                 ops.append([o, cur])
@@ -700,7 +701,7 @@ def gen_case(rng, tier, idx, kind=None, fam=None, method=None, dens=None):
             sub = [int(i) for i in np.flatnonzero(rng.random(k) < 0.6)] or [int(rng.integers(0, k))]
             ops.append([o, {spec["names"][i]: new[i] for i in sub}])
         elif o == "set_all_parameter_values":
-            ops.append([o, gen_params(rng, fam, cur)])
+            ops.append([o, gen_params(rng, fam, cur)] + (["same-array"] if rng.random() < 0.5 else []))
         elif o == "fix_parameter":
             i = int(rng.integers(0, k))
             ops.append([o, spec["names"][i], gen_params(rng, fam, cur)[i] if rng.random() < 0.8 else None])
@@ -875,7 +876,14 @@ def run_bare(ctx, case):
         key = None
         if op[0] == "parameters":
             v = op[1]
-            model.parameters = list(v) if op[2] == "list" else (tuple(v) if op[2] == "tuple" else np.array(v))
+            if op[2] == "same-array":
+                if st.get("_scan") is None or len(st["_scan"]) != len(v):
+                    st["_scan"] = np.zeros(len(v), dtype=float)
+                st["_scan"][:] = v
+                model.parameters = st["_scan"]
+                ctx.stratum("parameters", "same-array-reused")
+            else:
+                model.parameters = list(v) if op[2] == "list" else (tuple(v) if op[2] == "tuple" else np.array(v))
             st["params"] = list(v)
             mutated_then_read = True
         elif op[0] == "new_edges":
@@ -1013,7 +1021,14 @@ def run_fit(ctx, case):
             last_mut = op[0]
             mutated_then_read = True
         elif op[0] == "set_all_parameter_values":
-            fit.set_all_parameter_values(list(op[1]))
+            if len(op) > 2 and op[2] == "same-array":
+                if st.get("_scan") is None or len(st["_scan"]) != len(op[1]):
+                    st["_scan"] = np.zeros(len(op[1]), dtype=float)
+                st["_scan"][:] = op[1]
+                fit.set_all_parameter_values(st["_scan"])
+                ctx.stratum("parameters", "same-array-reused")
+            else:
+                fit.set_all_parameter_values(list(op[1]))
             st["params"] = list(op[1])
             last_mut = op[0]
             mutated_then_read = True
